@@ -84,8 +84,9 @@ CONFIG = dict(
          'reuse-mid random equal-size selections with the same first and last slice element on multi-root / random / GenHist / wide histories; '
          'reuse-sub ancestries of one or two heads, shallow cuts; reuse-grow a history that grows between the runs and shrinks again; '
          'reuse-medium ladder / comb / bush / diamonds / ffchain of up to 60 commits with another middle commit left out per run; '
-         'reuse-big-<shape> (light item, fast_c02): comb / diamonds / bush of 10^3 .. 10^4 commits (thorough: 10^4 in five shapes, a comb of '
-         '2^16 commits) run five times, each run without one commit whose removal keeps the history connected (same length and ends).',
+         'reuse-big-<shape> (light item, fast_c02): comb / diamonds / bush of 10^3 .. 10^4 commits run five times (thorough adds three runs each of a '
+         'comb / ladder of 10^4, diamonds / roots / bush of 3000 and a comb with a main line of 2^15+1 commits), each run without one commit whose '
+         'removal keeps the history connected (same length and ends).',
     exhaustive_note='all DAGs on <=5 topologically numbered commits (connected: 88 299 graph x hash-order cases, disconnected: '
                     '36 170) x all hash orders; thorough adds all connected DAGs on 6 commits x every sixth of the 720 hash orders; '
                     'execution stream: all DAGs on <=5 commits x hibernation distance 0..3 x DumpPlan/PrintActions combinations '
